@@ -35,6 +35,19 @@ def inherent_callee(I, res, nargs=4):
     return None
 
 
+def discover_roles(A):
+    roles = {}
+    for key in ('Allocator::shrink', 'Allocator::grow'):
+        val = A.get(key)
+        if val is None:
+            continue
+        I, res, body = val
+        ce = inherent_callee(I, res)
+        if ce is not None:
+            roles[key] = ce.callee
+    return roles
+
+
 def run(ctx, config='rel-all'):
     if config == 'rel-default':
         return
@@ -167,6 +180,35 @@ def run(ctx, config='rel-all'):
                     ctx.violation('O2', arena.short(roles['Allocator::grow']), 'in-place:' + nm.split(' ')[0], 'the in-place grow path %s does not hold (layout %s)' % (nm, show(L)[:120]), e.span)
         else:
             ctx.violation('O2', arena.short(roles['Allocator::grow']), 'in-place:missing', 'grow has no in-place extension path through the bumping function')
+    copy_discipline(ctx, A, roles, specs, 'R3', 7)
+    # ---- R4 error leaves the block untouched
+    for key, callee in roles.items():
+        b = db.by_path.get(callee)
+        if not b:
+            continue
+        J, r = arena.run_fn(ctx, b['id'], config)
+        g = J.cfg(b)
+        fail_blocks = set()
+        for bi in g.reachable:
+            blk = b['blocks'][bi]
+            for s in blk['stmts']:
+                if s['k'] == 'assign' and s['place']['l'] == 0 and not s['place']['proj'] and s['rv']['k'] == 'agg' and s['rv'].get('variant', '').split('#')[0] in ('None', 'Err'):
+                    fail_blocks.add(bi)
+            t = blk['term']
+            if t['k'] == 'call' and t['dest']['l'] == 0 and (t['callee'].get('path') or '').endswith('FromResidual::from_residual'):
+                fail_blocks.add(bi)
+        bad = 0
+        for e in r.events:
+            if len(e.stack) == 1 and (e.kind == 'copy' or (e.kind == 'store' and arena.footer_field(e))):
+                if g.reach([e.block]) & fail_blocks:
+                    bad += 1
+                    ctx.violation('R4', arena.short(callee), 'effect-then-Err', 'a %s is followed by a path that returns Err: the caller still owns the original block, which may have been moved or clobbered' % e.kind, e.span)
+        if not bad:
+            ctx.ok('R4', '%s: no own store/copy can be followed by an Err return (%d failure blocks)' % (arena.short(callee), len(fail_blocks)), 'CFG reachability')
+
+
+def copy_discipline(ctx, A, roles, specs, RULE_NAME, floor):
+    p = lambda i: ('param', i)
     # ---- R3 copy discipline
     ncopy = 0
     for key, role_n in (('Allocator::shrink', 4), ('Allocator::grow', 3), ('Alloc::realloc', None)):
@@ -196,45 +238,21 @@ def run(ctx, config='rel-all'):
                 want_n, what = None, '?'
             P = arena.mk_prover(I, e, res, axioms | arena.reclaim_precondition(I, e, cur_footer(e)))
             if want_n is not None and (n == want_n or P.eq(n, want_n)):
-                ctx.ok('R3', '%s via %s: copies %s bytes = min(old,new)' % (fn, key, what), show(n)[:60])
+                ctx.ok(RULE_NAME, '%s via %s: copies %s bytes = min(old,new)' % (fn, key, what), show(n)[:60])
             else:
-                ctx.violation('R3', fn, 'copy:count', 'copies %s bytes; expected %s (the first min(old,new) bytes must be preserved, no more)' % (show(n)[:80], what), e.span)
+                ctx.violation(RULE_NAME, fn, 'copy:count', 'copies %s bytes; expected %s (the first min(old,new) bytes must be preserved, no more)' % (show(n)[:80], what), e.span)
             if e.callee == 'copy':
-                ctx.ok('R3', '%s via %s: overlapping-safe ptr::copy' % (fn, key), 'memmove semantics')
+                ctx.ok(RULE_NAME, '%s via %s: overlapping-safe ptr::copy' % (fn, key), 'memmove semantics')
                 continue
             if dst in fresh_ptrs or any(dst == f for f in fresh_ptrs):
-                ctx.ok('R3', '%s via %s: copy_nonoverlapping into a block freshly allocated in this call' % (fn, key), 'fresh (disjoint from the live source block by C01)')
+                ctx.ok(RULE_NAME, '%s via %s: copy_nonoverlapping into a block freshly allocated in this call' % (fn, key), 'fresh (disjoint from the live source block by C01)')
                 continue
             delta = P.norm(app('sub', P.canon(dst), P.canon(src)))
             if halving(P, n, delta) or P.le(n, delta):
-                ctx.ok('R3', '%s via %s: copy_nonoverlapping with n <= dst - src' % (fn, key), 'L11 halving lemma: delta >= (old+1)/2 and delta <= old - new')
+                ctx.ok(RULE_NAME, '%s via %s: copy_nonoverlapping with n <= dst - src' % (fn, key), 'L11 halving lemma: delta >= (old+1)/2 and delta <= old - new')
             else:
-                ctx.violation('R3', fn, 'copy:overlap', 'copy_nonoverlapping(%s -> %s, %s) has no disjointness proof (not a fresh block, and n <= dst - src is not entailed): must be ptr::copy or guarded' % (show(src)[:40], show(dst)[:80], show(n)[:40]), e.span)
-    ctx.floor('R3', ncopy, 7, 'copy sites in shrink/grow over the entry points')
-    # ---- R4 error leaves the block untouched
-    for key, callee in roles.items():
-        b = db.by_path.get(callee)
-        if not b:
-            continue
-        J, r = arena.run_fn(ctx, b['id'], config)
-        g = J.cfg(b)
-        fail_blocks = set()
-        for bi in g.reachable:
-            blk = b['blocks'][bi]
-            for s in blk['stmts']:
-                if s['k'] == 'assign' and s['place']['l'] == 0 and not s['place']['proj'] and s['rv']['k'] == 'agg' and s['rv'].get('variant', '').split('#')[0] in ('None', 'Err'):
-                    fail_blocks.add(bi)
-            t = blk['term']
-            if t['k'] == 'call' and t['dest']['l'] == 0 and (t['callee'].get('path') or '').endswith('FromResidual::from_residual'):
-                fail_blocks.add(bi)
-        bad = 0
-        for e in r.events:
-            if len(e.stack) == 1 and (e.kind == 'copy' or (e.kind == 'store' and arena.footer_field(e))):
-                if g.reach([e.block]) & fail_blocks:
-                    bad += 1
-                    ctx.violation('R4', arena.short(callee), 'effect-then-Err', 'a %s is followed by a path that returns Err: the caller still owns the original block, which may have been moved or clobbered' % e.kind, e.span)
-        if not bad:
-            ctx.ok('R4', '%s: no own store/copy can be followed by an Err return (%d failure blocks)' % (arena.short(callee), len(fail_blocks)), 'CFG reachability')
+                ctx.violation(RULE_NAME, fn, 'copy:overlap', 'copy_nonoverlapping(%s -> %s, %s) has no disjointness proof (not a fresh block, and n <= dst - src is not entailed): must be ptr::copy or guarded' % (show(src)[:40], show(dst)[:80], show(n)[:40]), e.span)
+    ctx.floor(RULE_NAME, ncopy, floor, 'copy sites in shrink/grow over the entry points')
 
 
 def cur_footer(e):
